@@ -615,6 +615,14 @@ def _build(spec, model=None, holder=None, order_seed=None, codes=None, ckey_map=
                             S[(ck, 'CAP')].GenerateAssetWeighting(rule_obj, 'MON')
                             b.weightings_reused += 1
                     steps.append(('CAP', [], declare_cap))
+                if c.get('saver'):
+                    # a plain sector that holds deposits (a share of its assets) and says nothing about money
+                    def declare_saver(country=country, ck=ck, sv=c['saver']):
+                        sec_ = _Sector(country, 'SAV', 'Saver', has_F=True)
+                        sec_.AddVariable('DEM_DEP', 'deposits held', '%r*F' % (sv['share'],))
+                        sec_.AddInitialCondition('F', sv['F0'])
+                        S[(ck, 'SAV')] = sec_
+                    steps.append(('SAV', [], declare_saver))
                 steps.append(('LAB', [], lambda country=country, ck=ck: S.__setitem__(
                     (ck, 'LAB'), Market(country, code(ck, 'LAB'), 'Labour market'))))
                 steps.append(('GOOD', [], lambda country=country, ck=ck: S.__setitem__(
